@@ -143,6 +143,25 @@ class _Guarded:
                 return self._mod.execute(case)
             except CaseTimeout:
                 pass
+            except core.HarnessError:
+                raise
+            except Exception as exc:  # pylint: disable=broad-except
+                # An exception that escaped the check's own handlers: if it was raised by
+                # code of the tree under test it is the library failing (a violation, with
+                # the case as its replay); if it was raised by /verif code it is a harness bug.
+                tb = exc.__traceback__
+                while tb.tb_next is not None:
+                    tb = tb.tb_next
+                origin = tb.tb_frame.f_code.co_filename
+                if not origin.startswith(os.path.join(core.repo_dir() or "/nonexistent", "")):
+                    raise
+                out = core.Outcome()
+                out.violation = core.Violation(
+                    "exception", {"op": "uncaught", "type": type(exc).__name__},
+                    f"{type(exc).__name__}: {exc} raised in {os.path.relpath(origin, core.repo_dir())}:{tb.tb_lineno} "
+                    "outside any operation-level handler (e.g. while constructing the objects of the case)")
+                out.digest = "uncaught-" + type(exc).__name__
+                return out
             finally:
                 if use_alarm:
                     signal.setitimer(signal.ITIMER_REAL, 0)
